@@ -112,13 +112,15 @@ impl<'tcx> TyGenContext<'_, 'tcx> {
         let mut fields = vec![];
         let mut cb_structs_and_defs = vec![];
         for field in def.fields.iter() {
-            fields.push(self.gen_ty_decl(
+            let (field_ty, field_name) = self.gen_ty_decl(
                 &field.ty,
                 field.name.as_str(),
                 &mut decl_header,
                 None,
                 &mut cb_structs_and_defs, // for now this gets ignored, there are no callbacks in struct fields
-            ));
+            );
+            // Like parameters, fields named after a keyword of the target language get a trailing underscore
+            fields.push((field_ty, self.formatter.fmt_identifier(field_name)));
         }
 
         StructTemplate {
